@@ -406,15 +406,24 @@ func (g *gen) fixed(thorough bool) {
 		}
 		g.adds(fmt.Sprintf("batch-size/%d/all-null", n), `[`+strings.Join(ms, ",")+`]`)
 	}
-	g.adds("batch-size/10000/local", `[`+strings.Repeat(okReq+`,`, 9999)+okReq+`]`)
-	g.adds("batch-size/20000/all-null", `[`+strings.Repeat(`null,`, 19999)+`null]`)
+	bigN := 3000
+	if thorough {
+		bigN = 20000
+	}
+	g.adds(fmt.Sprintf("batch-size/%d/local", bigN), `[`+strings.Repeat(okReq+`,`, bigN-1)+okReq+`]`)
+	g.adds(fmt.Sprintf("batch-size/%d/all-null", bigN), `[`+strings.Repeat(`null,`, bigN-1)+`null]`)
+	g.adds(fmt.Sprintf("batch-size/%d/null-then-valid", bigN), `[`+strings.Repeat(`null,`, bigN-1)+okReq+`]`)
 	// --- up to 1 MiB: one huge string parameter, one huge id, a huge unknown member
 	big := strings.Repeat("a", mib-200)
 	g.adds("large/1MiB-param", `{"id":1,"method":"t_result_str","params":["`+big+`"]}`)
 	g.adds("large/1MiB-id", `{"id":"`+big+`","method":"eth_accounts"}`)
 	g.adds("large/1MiB-ignored-member", `{"id":1,"method":"eth_accounts","junk":"`+big+`"}`)
 	g.adds("large/1MiB-unterminated-string", `{"id":1,"method":"eth_accounts","junk":"`+big)
-	g.add("large/1MiB-random", g.r.Bytes(mib))
+	if thorough {
+		g.add("large/1MiB-random", g.r.Bytes(mib))
+	} else {
+		g.add("large/256KiB-random", g.r.Bytes(mib/4))
+	}
 	g.add("large/1MiB-zeros", make([]byte, mib))
 }
 
